@@ -1,6 +1,8 @@
 (* C02 — parsed components are the exact RFC 3986 sub-ranges of the input.
    Statements only; proofs in Proofs/ParseData.v (concatenation), Proofs/ParseWfStep.v and
-   Proofs/ParseWf.v (well-formedness).  The statements are about the model parser
+   Proofs/ParseWf.v (well-formedness), Proofs/ParseSplit.v (the splitter), Proofs/ParseAssemble.v (the
+   bracketed literal against the grammar; the address scanners plugged in).  The statements about
+   the two address scanners alone are in Props/C02ip4.v and Props/C02ip6.v.  The statements are about the model parser
    (Model/Parse.v); its correspondence with src/UriParse.c is checked by gen/c02.py.
 
    "The path list is well formed with its tail being the last node" holds by construction in
@@ -10,7 +12,8 @@
    (harness/drv.c prints "bad" otherwise, gen/c02.py reports it). *)
 From Coq Require Import List NArith Bool String.
 From UP Require Import Base.Chars Model.Uri Model.Ip4 Model.Parse Spec.NormalWf Spec.Unparse Spec.Identity
-  Spec.Split Proofs.ParseData Proofs.ParseWfStep Proofs.ParseWf Proofs.ParseSplit.
+  Spec.Split Proofs.ParseData Proofs.ParseWfStep Proofs.ParseWf Proofs.ParseSplit Proofs.ParseAssemble.
+From UP Require Import Base.Regex.
 From UP Require Proofs.ResolveProofs Spec.Rfc3986.
 Import ListNotations.
 Local Open Scope N_scope.
@@ -60,18 +63,37 @@ Theorem C02_parsed_wf_for_equality : forall s u, parse s = POk u -> uri_nul_free
 Proof. exact parse_wf_equality. Qed.
 Print Assumptions C02_parsed_wf_for_equality.
 
-(* The object is the one the Appendix-B style splitter of Spec/Split.v (RFC 3986 appendix B plus
-   the authority and path structure of section 3) assigns to the text: [spec_addr u] is [u] with the
-   two address fields recomputed from the host text by the specification functions (ip4_value when
-   the text matches IPv4address, ip6_value).
-   PARTIAL: what is missing for [u = split_spec s] is exactly
-     parse_ip4 h = if matchb IPv4address h then Some (ip4_value h) else None      (Model/Ip4.v)
-     ip6_bytes h = ip6_value h   for the text h of an accepted IPv6 literal       (Model/Parse.v)
-   which are statements about the two address scanners alone; Proofs/ParseSplit.v
-   parse_split_given_addr / parse_is_split derive [u = split_spec s] from them. *)
-Theorem C02_split_partial : forall s u, parse s = POk u -> split_spec s = spec_addr u.
-Proof. exact parse_split. Qed.
-Print Assumptions C02_split_partial.
+(* The object IS the one the Appendix-B style splitter of Spec/Split.v (RFC 3986 appendix B plus the
+   authority and path structure of section 3) assigns to the text: every component, the
+   absolute-path flag, the host kind (a bracketed literal is IPvFuture when it begins with "v",
+   IPv6 otherwise; an unbracketed host is IPv4 when its text matches the grammar's IPv4address, a
+   registered name otherwise) and the address bytes (Spec/Split.v ip4_value: decimal value of each
+   dotted part; ip6_value: RFC 4291 section 2.2 reading of the literal). *)
+Theorem C02_split : forall s u, parse s = POk u -> u = split_spec s.
+Proof. exact parse_is_split_full. Qed.
+Print Assumptions C02_split.
+
+(* The text between the brackets of an accepted input is a text of the grammar's
+   IPv6address / IPvFuture rule (so the address theorems of Props/C02ip6.v, which are stated for
+   texts of IPv6address, apply to every parsed IPv6 host). *)
+Theorem C02_literal_grammar : forall s u h, parse s = POk u -> hostText u = Some h -> is_lit u = true ->
+  matches (Alt Rfc3986.IPv6address Rfc3986.IPvFuture) h.
+Proof. exact parsed_literal_matches. Qed.
+Print Assumptions C02_literal_grammar.
+
+(* Host classification against the grammar itself (not only against the splitter): exactly one kind;
+   a bracketed host is an IPv6address text with its sixteen bytes or an IPvFuture text; an
+   unbracketed one is an IPv4address text with its four bytes, or else consists of reg-name
+   characters with well-formed percent-encodings and has no address data. *)
+Theorem C02_host_kind : forall s u h, parse s = POk u -> hostText u = Some h ->
+  (is_lit u = true /\ ip4 u = None /\
+     ((matches Rfc3986.IPv6address h /\ ip6 u = Some (ip6_value h) /\ ipFuture u = None /\ length (ip6_value h) = 16%nat)
+      \/ (matches Rfc3986.IPvFuture h /\ ip6 u = None /\ ipFuture u = Some h)))
+  \/ (is_lit u = false /\ ip6 u = None /\ ipFuture u = None /\
+     ((matches Rfc3986.IPv4address h /\ ip4 u = Some (ip4_value h))
+      \/ (~ matches Rfc3986.IPv4address h /\ text_ok is_regname_char h /\ ip4 u = None))).
+Proof. exact parse_host_kind. Qed.
+Print Assumptions C02_host_kind.
 
 (* Absent components are reported as absent (None) and present-but-empty ones as empty (Some []):
    each optional component, as an [option text], is the splitter's.  The splitter reports a
@@ -137,3 +159,27 @@ Example C02_ex_unparse :
           ["http://u:p@[::1]:80/a/b?q#f"; "//@:?#"; "x"; "//1.2.3.4/"; "//[v1.x]"; "/"; "a:/b"; "//h/b"; "";
            "a//b"; "//h//"; "?"; "#"; "./a:b"; "%41/%42"] = true.
 Proof. vm_compute. reflexivity. Qed.
+
+(* the parsed object is the splitter's, on an IPv4 host, an IPv6 host with "::" and an embedded
+   dotted quad, and an IPvFuture host; and the address bytes are the values written *)
+Example C02_ex_split_ip4 :
+  parse (txt "s://u@199.249.250.99:8/p") = POk (split_spec (txt "s://u@199.249.250.99:8/p"))
+  /\ ip4 (split_spec (txt "s://u@199.249.250.99:8/p")) = Some [199; 249; 250; 99]%N.
+Proof. vm_compute. split; reflexivity. Qed.
+
+Example C02_ex_split_ip6 :
+  parse (txt "//[1:2::ffff:1.2.3.4]/x") = POk (split_spec (txt "//[1:2::ffff:1.2.3.4]/x"))
+  /\ ip6 (split_spec (txt "//[1:2::ffff:1.2.3.4]/x")) = Some [0; 1; 0; 2; 0; 0; 0; 0; 0; 0; 255; 255; 1; 2; 3; 4]%N
+  /\ matchb Rfc3986.IPv6address (txt "1:2::ffff:1.2.3.4") = true.
+Proof. vm_compute. repeat split; reflexivity. Qed.
+
+Example C02_ex_split_ipfuture :
+  parse (txt "//[vF.a:b]:1") = POk (split_spec (txt "//[vF.a:b]:1"))
+  /\ ipFuture (split_spec (txt "//[vF.a:b]:1")) = Some (txt "vF.a:b")
+  /\ matchb Rfc3986.IPvFuture (txt "vF.a:b") = true.
+Proof. vm_compute. repeat split; reflexivity. Qed.
+
+(* a host that looks like a dotted quad but is not one (leading zero) is a registered name *)
+Example C02_ex_split_regname :
+  parse (txt "//01.2.3.4") = POk (split_spec (txt "//01.2.3.4")) /\ ip4 (split_spec (txt "//01.2.3.4")) = None.
+Proof. vm_compute. split; reflexivity. Qed.
